@@ -922,3 +922,39 @@ package zygo
 //@ ghost lenAfterArgs := len(gen.instructions) @after call GenerateCallArgsForFunction[0]
 //@ C04,C09 assert pops-all-extra-scopes @before call AddInstruction[*]: typeis(arg1, PrepareCallInstr) ==> len(arg0.instructions) == lenAfterArgs + ite(gen.scopes > 0, gen.scopes, 0)
 //@ C04,C09 loop 0 invariant 0 <= i && len(gen.instructions) == lenAfterArgs + i && i <= ite(gen.scopes > 0, gen.scopes, 0)
+
+// ===========================================================================
+// C02  compiled control flow: relative jumps land where the construct says
+// ===========================================================================
+// The VM moves the program counter by the relative amount carried in the
+// instruction; the compiler computes those amounts from the sizes of the code
+// blocks it has just compiled. The contracts below pin the layout: after each
+// step of the bottom-up construction the branch lands on the first instruction
+// of the alternative and the jump lands just past the end of the construct.
+//@ func (JumpInstr).Execute
+//@ C02 ensures relative: r0 == nil ==> env.pc == old(env.pc) + j.addpc
+//@ C02 ensures refused: r0 != nil ==> env.pc == old(env.pc)
+//@ func (*Generator).AddInstruction
+//@ C02 ensures appended: len(gen.instructions) == old(len(gen.instructions)) + 1 && gen.instructions[len(gen.instructions)-1] == instr
+//@ func (*Generator).AddInstructions
+//@ C02 ensures appended: len(gen.instructions) == old(len(gen.instructions)) + len(instr)
+//@ func (*Generator).Reset
+//@ C02 ensures empty: len(gen.instructions) == 0
+//@ func NewGenerator
+//@ C02 ensures empty: len(r0.instructions) == 0
+//@ func (*Generator).NewSubGenerator
+//@ C02 ensures empty: len(r0.instructions) == 0 && fresh(r0)
+
+// cond, built from the default arm upwards:  pred | branch-if-false | arm | jump | rest
+//@ func (*Generator).GenerateCond
+//@ ghost brAt := 0 - 1 @entry
+//@ ghost brLoc := 0 @entry
+//@ ghost jmpAt := 0 @entry
+//@ ghost jmpLoc := 0 @entry
+//@ ghost brAt := len(arg0.instructions) @before call AddInstruction[0]
+//@ ghost brLoc := arg1.(BranchInstr).location @before call AddInstruction[0]
+//@ ghost jmpAt := len(arg0.instructions) @before call AddInstruction[1]
+//@ ghost jmpLoc := arg1.(JumpInstr).addpc @before call AddInstruction[1]
+//@ C02 assert branch-on-false @before call AddInstruction[0]: typeis(arg1, BranchInstr) && !arg1.(BranchInstr).direction
+//@ C02 assert arm-ends-with-jump @before call AddInstruction[1]: typeis(arg1, JumpInstr)
+//@ C02 loop 0 invariant layout: brAt >= 0 ==> brAt + brLoc == jmpAt + 1 && jmpAt + jmpLoc == len(instructions)
